@@ -359,7 +359,11 @@ def run_shard(spec):
     try:
         viols, nontrivial, samples = R.run(run_case, spec["backend"], spec["cfg"], frames, counters, spec["case_seed"])
     except R.Inconclusive as e:
-        # the harness' generous watchdog fired: the relay never became quiescent again
+        # the harness' generous (60 s) watchdog fired. Only when relay tasks are demonstrably
+        # stuck (named in the message) is this the property's refutation; otherwise inconclusive
+        if "busy=[]" in str(e) or "busy=" not in str(e):
+            return {"evaluations": counters.get("frames", 0), "nontrivial": [], "counters": counters, "coverage": {}, "violations": [], "samples": [],
+                    "inconclusive": ["watchdog: %s" % e]}
         viols, nontrivial, samples = [{"key": "relay-wedged", "msg": "[%s/%s] the relay did not become quiescent again: %s" % (spec["backend"], spec["cfg"], e),
                                        "replay": {"backend": spec["backend"], "cfg": spec["cfg"], "labels": [l for l, _ in frames][:80], "frames": []}}], [], []
     seen, out = {}, []
